@@ -24,166 +24,173 @@ def run(index, rep, tier):
     rep.rule("R11.4", "DataSet binding: new_tree_list/new_char_matrix bind to the attached namespace or raise; read_dataset builds its factory from the attached namespace; add_* compare the component's namespace with the attached one; documented parameters are read")
 
     # ---- R11.1
-    nw = 0
-    for fi in list(index.functions.values()):
-        for w in writes_in(fi.node):
-            if w.attr != "_trees":
-                continue
-            adding = (w.kind == "mutcall" and w.method in ("append", "insert", "extend")) or w.kind in ("substore", "store", "augstore")
-            if not adding:
-                continue
-            owner_is_treelist = fi.cls is not None and index.is_subclass(fi.cls, TL)
-            if not owner_is_treelist and not (isinstance(w.base, ast.Name) and w.base.id in ("tree_list", "other")):
-                continue
-            nw += 1
-            if fi.qualname in TREES_EXEMPT:
-                rep.ob("R11.1", fn_where(fi, w.stmt), "%s: `%s` exempt - %s" % (fi.name, norm_stmt(w.stmt)[:50], TREES_EXEMPT[fi.qualname]), True, nontrivial=False)
-                continue
-            if w.kind == "mutcall":
-                val = w.call.args[-1] if w.call.args else None
-            else:
-                val = w.value
-            ok, how = _bound(index, fi, w, val)
-            rep.check(ok, "R11.1", fi.qualname, "unbound tree stored: " + norm_stmt(w.stmt)[:80], fn_where(fi, w.stmt), "%s: `%s` stores a tree bound to this list's namespace (%s)" % (fi.name, norm_stmt(w.stmt)[:50], how),
-                      "%s puts `%s` into the tree list without first importing it into the list's taxon namespace (no dominating _import_tree_to_taxon_namespace call, not constructed with taxon_namespace=self.taxon_namespace): the list then holds a tree whose namespace and taxa are foreign, which breaks every bipartition-based computation on the list"
-                      % (fi.qualname, norm(val)[:60] if val is not None else "?"))
-    rep.floor("R11.1", "statements that add to TreeList._trees", 9, nw)
-    imp = index.function(TL + "._import_tree_to_taxon_namespace")
-    cfg = cfg_of(imp)
-    diff = [n for n in cfg.nodes if n.kind == "test" and is_namespace_identity_test(n.ast) is not None]
-    rep.check(bool(diff), "R11.1", imp.qualname, "namespace comparison", fn_where(imp), "_import_tree_to_taxon_namespace compares the tree's namespace with the list's",
-              "_import_tree_to_taxon_namespace no longer compares the tree's namespace with the list's")
-    if diff:
-        def binds(n):
-            if any(call_name(c) == "migrate_taxon_namespace" and norm(get_kwarg(c, "taxon_namespace") or (c.args[0] if c.args else ast.Constant(None))) == "self.taxon_namespace" for c in node_calls(n)):
-                return True
-            if any(call_name(c) == "update_taxon_namespace" for c in node_calls(n)):
-                return True
-            return False
-        tstart = [t for lab, t in diff[0].succ if lab == "t"]
-        bad = cfg.can_reach(diff[0], lambda n: n is cfg.exit, avoid=binds, follow_exc=False, edge_ok=lambda s, l, d: not (s is diff[0] and l == "f"))
-        rep.check(bad is None, "R11.1", imp.qualname, "differing namespace => migrate/add or raise", fn_where(imp), "when namespaces differ every normal path migrates or adds the taxa",
-                  "_import_tree_to_taxon_namespace can return normally with the tree still in a foreign namespace")
-        adds = [n for n in cfg.nodes if n.kind == "stmt" and isinstance(n.ast, ast.Assign) and norm(n.ast.targets[0]) == "tree._taxon_namespace"]
-        for a in adds:
-            rep.check(norm(a.ast.value) == "self.taxon_namespace", "R11.1", imp.qualname, norm_stmt(a.ast), fn_where(imp, a.ast), "'add' strategy assigns the list's namespace", "the 'add' strategy assigns `%s`" % norm(a.ast.value))
+    with rep.section("R11.1"):
+        nw = 0
+        for fi in list(index.functions.values()):
+            for w in writes_in(fi.node):
+                if w.attr != "_trees":
+                    continue
+                adding = (w.kind == "mutcall" and w.method in ("append", "insert", "extend")) or w.kind in ("substore", "store", "augstore")
+                if not adding:
+                    continue
+                owner_is_treelist = fi.cls is not None and index.is_subclass(fi.cls, TL)
+                if not owner_is_treelist and not (isinstance(w.base, ast.Name) and w.base.id in ("tree_list", "other")):
+                    continue
+                nw += 1
+                if fi.qualname in TREES_EXEMPT:
+                    rep.ob("R11.1", fn_where(fi, w.stmt), "%s: `%s` exempt - %s" % (fi.name, norm_stmt(w.stmt)[:50], TREES_EXEMPT[fi.qualname]), True, nontrivial=False)
+                    continue
+                if w.kind == "mutcall":
+                    val = w.call.args[-1] if w.call.args else None
+                else:
+                    val = w.value
+                ok, how = _bound(index, fi, w, val)
+                rep.check(ok, "R11.1", fi.qualname, "unbound tree stored: " + norm_stmt(w.stmt)[:80], fn_where(fi, w.stmt), "%s: `%s` stores a tree bound to this list's namespace (%s)" % (fi.name, norm_stmt(w.stmt)[:50], how),
+                          "%s puts `%s` into the tree list without first importing it into the list's taxon namespace (no dominating _import_tree_to_taxon_namespace call, not constructed with taxon_namespace=self.taxon_namespace): the list then holds a tree whose namespace and taxa are foreign, which breaks every bipartition-based computation on the list"
+                          % (fi.qualname, norm(val)[:60] if val is not None else "?"))
+        rep.floor("R11.1", "statements that add to TreeList._trees", 9, nw)
+        imp = index.function(TL + "._import_tree_to_taxon_namespace")
+        cfg = cfg_of(imp)
+        diff = [n for n in cfg.nodes if n.kind == "test" and is_namespace_identity_test(n.ast) is not None]
+        rep.check(bool(diff), "R11.1", imp.qualname, "namespace comparison", fn_where(imp), "_import_tree_to_taxon_namespace compares the tree's namespace with the list's",
+                  "_import_tree_to_taxon_namespace no longer compares the tree's namespace with the list's")
+        if diff:
+            def binds(n):
+                if any(call_name(c) == "migrate_taxon_namespace" and norm(get_kwarg(c, "taxon_namespace") or (c.args[0] if c.args else ast.Constant(None))) == "self.taxon_namespace" for c in node_calls(n)):
+                    return True
+                if any(call_name(c) == "update_taxon_namespace" for c in node_calls(n)):
+                    return True
+                return False
+            tstart = [t for lab, t in diff[0].succ if lab == "t"]
+            bad = cfg.can_reach(diff[0], lambda n: n is cfg.exit, avoid=binds, follow_exc=False, edge_ok=lambda s, l, d: not (s is diff[0] and l == "f"))
+            rep.check(bad is None, "R11.1", imp.qualname, "differing namespace => migrate/add or raise", fn_where(imp), "when namespaces differ every normal path migrates or adds the taxa",
+                      "_import_tree_to_taxon_namespace can return normally with the tree still in a foreign namespace")
+            adds = [n for n in cfg.nodes if n.kind == "stmt" and isinstance(n.ast, ast.Assign) and norm(n.ast.targets[0]) == "tree._taxon_namespace"]
+            for a in adds:
+                rep.check(norm(a.ast.value) == "self.taxon_namespace", "R11.1", imp.qualname, norm_stmt(a.ast), fn_where(imp, a.ast), "'add' strategy assigns the list's namespace", "the 'add' strategy assigns `%s`" % norm(a.ast.value))
 
     # ---- R11.2
-    mig = index.function(TNA + ".migrate_taxon_namespace")
-    cfg = cfg_of(mig)
-    asg = [n for n in cfg.nodes if n.kind == "stmt" and isinstance(n.ast, ast.Assign) and norm(n.ast.targets[0]) == "self._taxon_namespace"]
-    rec = [n for n in cfg.nodes if any(call_name(c) == "reconstruct_taxon_namespace" for c in node_calls(n))]
-    ok = len(asg) == 1 and len(rec) == 1 and norm(asg[0].ast.value) == "taxon_namespace" and cfg.dominated_by(rec[0], lambda n: n is asg[0]) and cfg.must_pass(cfg.entry, lambda n: n is rec[0])[0]
-    rep.check(ok, "R11.2", mig.qualname, "assign then reconstruct", fn_where(mig), "migrate assigns the new namespace and then reconstructs on every path",
-              "migrate_taxon_namespace no longer assigns the namespace and then calls reconstruct_taxon_namespace on every path")
-    if rec:
-        c = [c for c in node_calls(rec[0]) if call_name(c) == "reconstruct_taxon_namespace"][0]
-        kw = {k.arg: norm(k.value) for k in c.keywords}
-        rep.check(kw.get("unify_taxa_by_label") == "unify_taxa_by_label" and kw.get("taxon_mapping_memo") == "taxon_mapping_memo", "R11.2", mig.qualname, "forwards %s" % kw, fn_where(mig, c),
-                  "migrate forwards unify_taxa_by_label and taxon_mapping_memo", "migrate_taxon_namespace calls reconstruct_taxon_namespace with %s: the caller's label-unification choice or shared mapping memo is dropped, so equal labels in different members end up on different taxa" % kw)
-    tlr = index.function(TL + ".reconstruct_taxon_namespace")
-    loops = [l for l in walk_no_nested(tlr.node) if isinstance(l, ast.For)]
-    memo_created_in_loop = any(isinstance(n, ast.Assign) and norm(n.targets[0]) == "taxon_mapping_memo" for l in loops for n in ast.walk(l))
-    calls = [c for l in loops for c in ast.walk(l) if isinstance(c, ast.Call) and call_name(c) == "reconstruct_taxon_namespace"]
-    ok = bool(calls) and all(norm(get_kwarg(c, "taxon_mapping_memo") or ast.Constant(None)) == "taxon_mapping_memo" and norm(get_kwarg(c, "unify_taxa_by_label") or ast.Constant(None)) == "unify_taxa_by_label" for c in calls) and not memo_created_in_loop
-    rep.check(ok, "R11.2", tlr.qualname, "one memo for all trees", fn_where(tlr), "TreeList.reconstruct passes the same memo object to every tree", "TreeList.reconstruct_taxon_namespace does not hand one shared memo to every tree: the same source taxon is mapped to different taxa in different trees")
-    binds = [n for l in loops for n in ast.walk(l) if isinstance(n, ast.Assign) and norm(n.targets[0]).endswith("._taxon_namespace")]
-    rep.check(bool(binds) and all(norm(b.value) == "self.taxon_namespace" for b in binds), "R11.2", tlr.qualname, "each tree rebound", fn_where(tlr), "each tree is bound to the list's namespace before reconstruction", "TreeList.reconstruct_taxon_namespace no longer binds each tree to the list's namespace")
-    un = index.function(DS + ".unify_taxon_namespaces")
-    migs = [c for c in calls_in(un.node) if call_name(c) == "migrate_taxon_namespace"]
-    memo_names = {norm(get_kwarg(c, "taxon_mapping_memo") or ast.Constant(None)) for c in migs}
-    ns_names = {norm(get_kwarg(c, "taxon_namespace") or ast.Constant(None)) for c in migs}
-    mname = list(memo_names)[0] if len(memo_names) == 1 else None
-    memos = [n for n in walk_no_nested(un.node) if isinstance(n, ast.Assign) and norm(n.targets[0]) == mname]
-    in_loop = any(any(m is x for x in ast.walk(l)) for m in memos for l in walk_no_nested(un.node) if isinstance(l, ast.For))
-    ok = len(memos) == 1 and not in_loop and len(migs) >= 2 and mname not in (None, "None") and len(ns_names) == 1 and "None" not in ns_names
-    rep.check(ok, "R11.2", un.qualname, "one memo for all components", fn_where(un), "DataSet.unify passes one memo and one namespace to every tree list and matrix", "DataSet.unify_taxon_namespaces does not pass one shared memo/namespace to all components")
-    for q in (TREE + ".reconstruct_taxon_namespace", CM + ".reconstruct_taxon_namespace"):
-        f = index.function(q)
-        gets = [c for c in calls_in(f.node) if call_name(c) == "get" and norm(c.func.value) == "taxon_mapping_memo"]
-        puts = [w for w in writes_in(f.node) if w.kind == "substore" and w.via_alias is None and norm(w.node.value) == "taxon_mapping_memo"] + \
-               [n for n in walk_no_nested(f.node) if isinstance(n, ast.Assign) and isinstance(n.targets[0], ast.Subscript) and norm(n.targets[0].value) == "taxon_mapping_memo"]
-        rep.check(bool(gets) and bool(puts), "R11.2", f.qualname, "memo consulted and filled", fn_where(f), "%s consults the memo before creating/looking up a taxon and records the mapping" % f.name,
-                  "%s no longer consults and fills the shared taxon mapping memo" % f.qualname)
+    with rep.section("R11.2"):
+        mig = index.function(TNA + ".migrate_taxon_namespace")
+        cfg = cfg_of(mig)
+        asg = [n for n in cfg.nodes if n.kind == "stmt" and isinstance(n.ast, ast.Assign) and norm(n.ast.targets[0]) == "self._taxon_namespace"]
+        rec = [n for n in cfg.nodes if any(call_name(c) == "reconstruct_taxon_namespace" for c in node_calls(n))]
+        ok = len(asg) == 1 and len(rec) == 1 and norm(asg[0].ast.value) == "taxon_namespace" and cfg.dominated_by(rec[0], lambda n: n is asg[0]) and cfg.must_pass(cfg.entry, lambda n: n is rec[0])[0]
+        rep.check(ok, "R11.2", mig.qualname, "assign then reconstruct", fn_where(mig), "migrate assigns the new namespace and then reconstructs on every path",
+                  "migrate_taxon_namespace no longer assigns the namespace and then calls reconstruct_taxon_namespace on every path")
+        if rec:
+            c = [c for c in node_calls(rec[0]) if call_name(c) == "reconstruct_taxon_namespace"][0]
+            kw = {k.arg: norm(k.value) for k in c.keywords}
+            rep.check(kw.get("unify_taxa_by_label") == "unify_taxa_by_label" and kw.get("taxon_mapping_memo") == "taxon_mapping_memo", "R11.2", mig.qualname, "forwards %s" % kw, fn_where(mig, c),
+                      "migrate forwards unify_taxa_by_label and taxon_mapping_memo", "migrate_taxon_namespace calls reconstruct_taxon_namespace with %s: the caller's label-unification choice or shared mapping memo is dropped, so equal labels in different members end up on different taxa" % kw)
+        tlr = index.function(TL + ".reconstruct_taxon_namespace")
+        loops = [l for l in walk_no_nested(tlr.node) if isinstance(l, ast.For)]
+        memo_created_in_loop = any(isinstance(n, ast.Assign) and norm(n.targets[0]) == "taxon_mapping_memo" for l in loops for n in ast.walk(l))
+        calls = [c for l in loops for c in ast.walk(l) if isinstance(c, ast.Call) and call_name(c) == "reconstruct_taxon_namespace"]
+        ok = bool(calls) and all(norm(get_kwarg(c, "taxon_mapping_memo") or ast.Constant(None)) == "taxon_mapping_memo" and norm(get_kwarg(c, "unify_taxa_by_label") or ast.Constant(None)) == "unify_taxa_by_label" for c in calls) and not memo_created_in_loop
+        rep.check(ok, "R11.2", tlr.qualname, "one memo for all trees", fn_where(tlr), "TreeList.reconstruct passes the same memo object to every tree", "TreeList.reconstruct_taxon_namespace does not hand one shared memo to every tree: the same source taxon is mapped to different taxa in different trees")
+        binds = [n for l in loops for n in ast.walk(l) if isinstance(n, ast.Assign) and norm(n.targets[0]).endswith("._taxon_namespace")]
+        rep.check(bool(binds) and all(norm(b.value) == "self.taxon_namespace" for b in binds), "R11.2", tlr.qualname, "each tree rebound", fn_where(tlr), "each tree is bound to the list's namespace before reconstruction", "TreeList.reconstruct_taxon_namespace no longer binds each tree to the list's namespace")
+        un = index.function(DS + ".unify_taxon_namespaces")
+        migs = [c for c in calls_in(un.node) if call_name(c) == "migrate_taxon_namespace"]
+        memo_names = {norm(get_kwarg(c, "taxon_mapping_memo") or ast.Constant(None)) for c in migs}
+        ns_names = {norm(get_kwarg(c, "taxon_namespace") or ast.Constant(None)) for c in migs}
+        mname = list(memo_names)[0] if len(memo_names) == 1 else None
+        memos = [n for n in walk_no_nested(un.node) if isinstance(n, ast.Assign) and norm(n.targets[0]) == mname]
+        in_loop = any(any(m is x for x in ast.walk(l)) for m in memos for l in walk_no_nested(un.node) if isinstance(l, ast.For))
+        ok = len(memos) == 1 and not in_loop and len(migs) >= 2 and mname not in (None, "None") and len(ns_names) == 1 and "None" not in ns_names
+        rep.check(ok, "R11.2", un.qualname, "one memo for all components", fn_where(un), "DataSet.unify passes one memo and one namespace to every tree list and matrix", "DataSet.unify_taxon_namespaces does not pass one shared memo/namespace to all components")
+        for q in (TREE + ".reconstruct_taxon_namespace", CM + ".reconstruct_taxon_namespace"):
+            f = index.function(q)
+            gets = [c for c in calls_in(f.node) if call_name(c) == "get" and norm(c.func.value) == "taxon_mapping_memo"]
+            puts = [w for w in writes_in(f.node) if w.kind == "substore" and w.via_alias is None and norm(w.node.value) == "taxon_mapping_memo"] + \
+                   [n for n in walk_no_nested(f.node) if isinstance(n, ast.Assign) and isinstance(n.targets[0], ast.Subscript) and norm(n.targets[0].value) == "taxon_mapping_memo"]
+            rep.check(bool(gets) and bool(puts), "R11.2", f.qualname, "memo consulted and filled", fn_where(f), "%s consults the memo before creating/looking up a taxon and records the mapping" % f.name,
+                      "%s no longer consults and fills the shared taxon mapping memo" % f.qualname)
 
     # ---- R11.5 label unification uses one folding
-    rep.rule("R11.5", "label unification: the cached folded label of a taxon and every folded query use the same folding method (shared with R10.9), so that equal labels end up on one taxon")
-    from . import c10
-    c10.folding_rule(index, rep, "R11.5")
+    with rep.section("R11.5 label unification uses one folding"):
+        rep.rule("R11.5", "label unification: the cached folded label of a taxon and every folded query use the same folding method (shared with R10.9), so that equal labels end up on one taxon")
+        from . import c10
+        c10.folding_rule(index, rep, "R11.5")
+        nc, caches = c10.derived_cache_rule(index, rep, "R11.5", "dendropy.datamodel.taxonmodel.Taxon")
+        rep.floor("R11.5", "stores to a field that feeds a lazily computed cache of Taxon", 1, nc)
 
     # ---- R11.3
-    ns = 0
-    for fi in index.methods_of(CM):
-        cfg = None
-        for w in writes_in(fi.node):
-            if w.attr != "_taxon_sequence_map" or w.kind != "substore" or not (isinstance(w.base, ast.Name) and w.base.id == "self"):
-                continue
-            ns += 1
-            cfg = cfg or cfg_of(fi)
-            key = norm(w.node.slice)
-            wn = stmt_nodes(cfg, w.stmt)[0]
-            guards = {g.id for g, _ in find_namespace_guards(cfg)}
+    with rep.section("R11.3"):
+        ns = 0
+        for fi in index.methods_of(CM):
+            cfg = None
+            for w in writes_in(fi.node):
+                if w.attr != "_taxon_sequence_map" or w.kind != "substore" or not (isinstance(w.base, ast.Name) and w.base.id == "self"):
+                    continue
+                ns += 1
+                cfg = cfg or cfg_of(fi)
+                key = norm(w.node.slice)
+                wn = stmt_nodes(cfg, w.stmt)[0]
+                guards = {g.id for g, _ in find_namespace_guards(cfg)}
 
-            def member_test(n, key=key):
-                if n.kind != "test":
-                    return False
-                cp = compare_parts(n.ast)
-                return bool(cp) and cp[1] in ("NotIn", "In") and norm(cp[0]) == key and "taxon_namespace" in norm(cp[2])
-            from_ns = False
-            for d in walk_no_nested(fi.node):
-                if isinstance(d, ast.Assign) and norm(d.targets[0]) == key and isinstance(d.value, ast.Call) and call_name(d.value) in ("require_taxon", "new_taxon", "get_taxon", "_resolve_key") and "taxon_namespace" in norm(d.value.func) + fi.name + "taxon_namespace":
-                    from_ns = call_name(d.value) in ("require_taxon", "new_taxon")
-            ok = cfg.dominated_by(wn, member_test) or (bool(guards) and cfg.dominated_by(wn, lambda n: n.id in guards)) or from_ns
-            how = "membership test" if cfg.dominated_by(wn, member_test) else ("namespace guard on the source matrix" if guards else ("taxon obtained from the namespace" if from_ns else "?"))
-            rep.check(ok, "R11.3", fi.qualname, "row keyed by unchecked taxon: " + norm_stmt(w.stmt)[:70], fn_where(fi, w.stmt), "%s: row store `%s` keyed by a member (%s)" % (fi.name, norm_stmt(w.stmt)[:40], how),
-                      "%s stores a row under `%s` without a dominating test that the taxon belongs to the matrix's namespace (no `in self.taxon_namespace` test, no namespace guard, not obtained from require_taxon/new_taxon)" % (fi.qualname, key))
-    rep.floor("R11.3", "row stores in CharacterMatrix", 8, ns)
-    # re-keying excludes identity
-    rk = index.function(CM + ".reconstruct_taxon_namespace")
-    cfg = cfg_of(rk)
-    coll = [n for n in cfg.nodes if n.kind == "test" and isinstance(n.ast, ast.Compare) and type(n.ast.ops[0]).__name__ == "In" and norm(n.ast.comparators[0]) == "self._taxon_sequence_map"
-            and raises_in_branch(cfg, n, "t") is not None]
-    if not coll:
-        raise AnalysisError("R11.3: collision test in CharacterMatrix.reconstruct_taxon_namespace not recognised")
-    for c in coll:
-        newk = norm(c.ast.left)
+                def member_test(n, key=key):
+                    if n.kind != "test":
+                        return False
+                    cp = compare_parts(n.ast)
+                    return bool(cp) and cp[1] in ("NotIn", "In") and norm(cp[0]) == key and "taxon_namespace" in norm(cp[2])
+                from_ns = False
+                for d in walk_no_nested(fi.node):
+                    if isinstance(d, ast.Assign) and norm(d.targets[0]) == key and isinstance(d.value, ast.Call) and call_name(d.value) in ("require_taxon", "new_taxon", "get_taxon", "_resolve_key") and "taxon_namespace" in norm(d.value.func) + fi.name + "taxon_namespace":
+                        from_ns = call_name(d.value) in ("require_taxon", "new_taxon")
+                ok = cfg.dominated_by(wn, member_test) or (bool(guards) and cfg.dominated_by(wn, lambda n: n.id in guards)) or from_ns
+                how = "membership test" if cfg.dominated_by(wn, member_test) else ("namespace guard on the source matrix" if guards else ("taxon obtained from the namespace" if from_ns else "?"))
+                rep.check(ok, "R11.3", fi.qualname, "row keyed by unchecked taxon: " + norm_stmt(w.stmt)[:70], fn_where(fi, w.stmt), "%s: row store `%s` keyed by a member (%s)" % (fi.name, norm_stmt(w.stmt)[:40], how),
+                          "%s stores a row under `%s` without a dominating test that the taxon belongs to the matrix's namespace (no `in self.taxon_namespace` test, no namespace guard, not obtained from require_taxon/new_taxon)" % (fi.qualname, key))
+        rep.floor("R11.3", "row stores in CharacterMatrix", 8, ns)
+        # re-keying excludes identity
+        rk = index.function(CM + ".reconstruct_taxon_namespace")
+        cfg = cfg_of(rk)
+        coll = [n for n in cfg.nodes if n.kind == "test" and isinstance(n.ast, ast.Compare) and type(n.ast.ops[0]).__name__ == "In" and norm(n.ast.comparators[0]) == "self._taxon_sequence_map"
+                and raises_in_branch(cfg, n, "t") is not None]
+        if not coll:
+            raise AnalysisError("R11.3: collision test in CharacterMatrix.reconstruct_taxon_namespace not recognised")
+        for c in coll:
+            newk = norm(c.ast.left)
 
-        def ident(n, newk=newk):
-            cp = compare_parts(n.ast) if n.kind == "test" else None
-            return bool(cp) and cp[1] in ("Is", "IsNot", "Eq", "NotEq") and newk in (norm(cp[0]), norm(cp[2])) and "original" in norm(cp[0]) + norm(cp[2])
-        ok = cfg.dominated_by(c, ident)
-        rep.check(ok, "R11.3", rk.qualname, "collision test `%s` not guarded by identity" % norm(c.ast), fn_where(rk, c.stmt), "re-keying reports a collision only for a DIFFERENT taxon already holding a row",
-                  "CharacterMatrix.reconstruct_taxon_namespace raises 'Multiple sequences' when `%s`, without first excluding the case that the mapped taxon IS the original one: reconstructing a matrix whose taxa are already members of its namespace fails although nothing collides" % norm(c.ast))
+            def ident(n, newk=newk):
+                cp = compare_parts(n.ast) if n.kind == "test" else None
+                return bool(cp) and cp[1] in ("Is", "IsNot", "Eq", "NotEq") and newk in (norm(cp[0]), norm(cp[2])) and "original" in norm(cp[0]) + norm(cp[2])
+            ok = cfg.dominated_by(c, ident)
+            rep.check(ok, "R11.3", rk.qualname, "collision test `%s` not guarded by identity" % norm(c.ast), fn_where(rk, c.stmt), "re-keying reports a collision only for a DIFFERENT taxon already holding a row",
+                      "CharacterMatrix.reconstruct_taxon_namespace raises 'Multiple sequences' when `%s`, without first excluding the case that the mapped taxon IS the original one: reconstructing a matrix whose taxa are already members of its namespace fails although nothing collides" % norm(c.ast))
 
     # ---- R11.4
-    for name in ("new_tree_list", "new_char_matrix"):
-        f = index.function(DS + "." + name)
-        cfg = cfg_of(f)
-        sets = [n for n in cfg.nodes if n.kind == "stmt" and isinstance(n.ast, ast.Assign) and norm(n.ast.targets[0]) == "kwargs['taxon_namespace']"]
-        ok = bool(sets) and all(norm(s_.ast.value) == "self.attached_taxon_namespace" for s_ in sets)
-        # with an attached namespace: every normal path passes the override (or raises)
-        attached = [n for n in cfg.nodes if n.kind == "test" and norm(n.ast) == "self.attached_taxon_namespace is not None"]
-        if ok and attached:
-            ids = {s_.id for s_ in sets}
-            w = cfg.can_reach(attached[0], lambda n: n is cfg.exit, avoid=lambda n: n.id in ids, follow_exc=False, edge_ok=lambda s_, l, d: not (s_ is attached[0] and l == "f"))
-            ok = w is None
-        rep.check(ok and bool(attached), "R11.4", f.qualname, "attached namespace overrides the keyword", fn_where(f), "%s binds the new component to the attached namespace or raises on conflict" % name,
-                  "%s can create a component over a namespace other than the data set's attached one: with a namespace attached every component must be bound to it" % f.qualname)
-    rd = index.function("dendropy.dataio.ioservice.DataReader.read_dataset")
-    rcall = [c for c in calls_in(rd.node) if call_name(c) == "_read"]
-    fvar = norm(get_kwarg(rcall[0], "taxon_namespace_factory")) if rcall and get_kwarg(rcall[0], "taxon_namespace_factory") is not None else "taxon_namespace_factory"
-    lam = [n for n in walk_no_nested(rd.node) if isinstance(n, ast.Assign) and norm(n.targets[0]) == fvar and isinstance(n.value, ast.Lambda)]
-    ok = any(norm(l.value.body) == "dataset.attached_taxon_namespace" for l in lam) and any(norm(l.value.body) == "taxon_namespace" for l in lam)
-    rep.check(ok, "R11.4", rd.qualname, "factory from attached namespace", fn_where(rd), "read_dataset hands the reader the attached (or given) namespace as its only namespace factory", "read_dataset no longer builds its namespace factory from the attached/given namespace")
-    for name in ("add_tree_list", "add_char_matrix"):
-        f = index.function(DS + "." + name)
-        compares = [n for n in walk_no_nested(f.node) if isinstance(n, ast.Compare) and "attached_taxon_namespace" in norm(n)]
-        rep.check(bool(compares), "R11.4", f.qualname, "no comparison with attached namespace", fn_where(f), "%s compares the component's namespace with the attached one" % name,
-                  "%s inserts a component without comparing its namespace with attached_taxon_namespace: in attached mode the data set then holds a component bound to a foreign namespace" % f.qualname)
-    un_params = unused_params(un)
-    for p in [x for x in un.all_params if x != "self"]:
-        rep.check(p not in un_params, "R11.4", un.qualname, "parameter %s never read" % p, fn_where(un), "unify_taxon_namespaces reads its `%s` parameter" % p,
-                  "DataSet.unify_taxon_namespaces accepts `%s` but never reads it: labels are unified the same way whatever the caller asks" % p)
+    with rep.section("R11.4"):
+        for name in ("new_tree_list", "new_char_matrix"):
+            f = index.function(DS + "." + name)
+            cfg = cfg_of(f)
+            sets = [n for n in cfg.nodes if n.kind == "stmt" and isinstance(n.ast, ast.Assign) and norm(n.ast.targets[0]) == "kwargs['taxon_namespace']"]
+            ok = bool(sets) and all(norm(s_.ast.value) == "self.attached_taxon_namespace" for s_ in sets)
+            # with an attached namespace: every normal path passes the override (or raises)
+            attached = [n for n in cfg.nodes if n.kind == "test" and norm(n.ast) == "self.attached_taxon_namespace is not None"]
+            if ok and attached:
+                ids = {s_.id for s_ in sets}
+                w = cfg.can_reach(attached[0], lambda n: n is cfg.exit, avoid=lambda n: n.id in ids, follow_exc=False, edge_ok=lambda s_, l, d: not (s_ is attached[0] and l == "f"))
+                ok = w is None
+            rep.check(ok and bool(attached), "R11.4", f.qualname, "attached namespace overrides the keyword", fn_where(f), "%s binds the new component to the attached namespace or raises on conflict" % name,
+                      "%s can create a component over a namespace other than the data set's attached one: with a namespace attached every component must be bound to it" % f.qualname)
+        rd = index.function("dendropy.dataio.ioservice.DataReader.read_dataset")
+        rcall = [c for c in calls_in(rd.node) if call_name(c) == "_read"]
+        fvar = norm(get_kwarg(rcall[0], "taxon_namespace_factory")) if rcall and get_kwarg(rcall[0], "taxon_namespace_factory") is not None else "taxon_namespace_factory"
+        lam = [n for n in walk_no_nested(rd.node) if isinstance(n, ast.Assign) and norm(n.targets[0]) == fvar and isinstance(n.value, ast.Lambda)]
+        ok = any(norm(l.value.body) == "dataset.attached_taxon_namespace" for l in lam) and any(norm(l.value.body) == "taxon_namespace" for l in lam)
+        rep.check(ok, "R11.4", rd.qualname, "factory from attached namespace", fn_where(rd), "read_dataset hands the reader the attached (or given) namespace as its only namespace factory", "read_dataset no longer builds its namespace factory from the attached/given namespace")
+        for name in ("add_tree_list", "add_char_matrix"):
+            f = index.function(DS + "." + name)
+            compares = [n for n in walk_no_nested(f.node) if isinstance(n, ast.Compare) and "attached_taxon_namespace" in norm(n)]
+            rep.check(bool(compares), "R11.4", f.qualname, "no comparison with attached namespace", fn_where(f), "%s compares the component's namespace with the attached one" % name,
+                      "%s inserts a component without comparing its namespace with attached_taxon_namespace: in attached mode the data set then holds a component bound to a foreign namespace" % f.qualname)
+        un_params = unused_params(un)
+        for p in [x for x in un.all_params if x != "self"]:
+            rep.check(p not in un_params, "R11.4", un.qualname, "parameter %s never read" % p, fn_where(un), "unify_taxon_namespaces reads its `%s` parameter" % p,
+                      "DataSet.unify_taxon_namespaces accepts `%s` but never reads it: labels are unified the same way whatever the caller asks" % p)
 
 
 def _bound(index, fi, w, val):
